@@ -54,6 +54,10 @@ def make_base(seed: int, idx: int) -> dict:
         p = {'tag': 'probe', 'steps': [['submit', 'v1', {'tag': 'probe1', 'steps': []}], ['await', 'v1']]}
         clients.append({'name': 'cz', 'ops': [['sleep', 30.0], ['connect'], ['compile', p], ['close']]})
     sc.update({'topology': topo, 'clients': clients, 'features': sorted(g.features), 'family': 'crash'})
+    # every second base models TCP resets: a node that dies with unread data,
+    # or that is written to after it died, makes its peer's read fail with
+    # ConnectionResetError instead of EOF
+    sc['resets'] = bool((idx // len(kinds)) % 2 == 0) if idx >= len(kinds) else bool(idx % 2)
     return sc
 
 
@@ -196,6 +200,9 @@ def main(tier: str, seed: int, replay: str | None = None) -> int:
             if c['op'] == 'compile':
                 run.count('client_compile_outcome:' + c['outcome'])
         run.count('survivor_uncaught_exceptions', len(obs.get('uncaught', [])))
+        run.count('reads_failed_with_connection_reset', sum(1 for m in obs.get('msglog', []) if m['ev'] == 'recv_reset'))
+        if sc.get('resets'):
+            run.count('executions_with_tcp_reset_model')
     # fidelity tier: real processes, real SIGKILL
     n_proc = PROC_BUDGET[tier]
     precs = core.pmap(procnet_case, [(seed, i) for i in range(n_proc)], workers=4)
@@ -227,13 +234,14 @@ def main(tier: str, seed: int, replay: str | None = None) -> int:
     run.extra['distinct_crash_classes'] = len(classes)
     run.extra['crash_classes_sample'] = sorted(map(repr, classes))[:20]
     run.extra['bases'] = len(bases)
-    for c in ('crashes_injected', 'client_compile_outcome:raise', 'victim_role:worker'):
+    for c in ('crashes_injected', 'client_compile_outcome:raise', 'victim_role:worker', 'reads_failed_with_connection_reset', 'executions_with_tcp_reset_model'):
         run.require(c, 1)
     return run.finish(
         rule='for each base execution (tree x topology x schedule; attached 1-4 workers, detached 1-2 managers x 1-2 workers, one nested) kill each worker and each manager after step i for every i (strided to the per-victim cap) from "runtime is up" to a few steps past the last client answer; plus double crashes. distinct = (base, victim, crash step(s)); non-trivial = the crash was actually injected (victim alive at that step)',
         assumptions=driver.SIM_ASSUMPTIONS + [
             'crashes before the runtime finished starting (a worker that never connects) are out of scope of the statement ("during a compilation") and not injected',
             'a send to a dead peer succeeds once and raises BrokenPipeError afterwards (TCP behaviour after FIN/RST)',
+            'half of the bases use the TCP reset model: a node that dies or closes while data for it is unread, or that is written to after it died, makes its peer\'s read at the end of its data fail once with ConnectionResetError instead of returning EOF (what a real kernel answers with RST); the other half deliver plain EOF',
             'bounded time is decided logically: the run must reach global quiescence with no client blocked; virtual time never decides',
         ],
     )
